@@ -41,6 +41,16 @@ fn xorbs_with_many_chunks_round_trip() {
             },
             Err(e) => bad.push(format!("{n} chunks: a serialized xorb cannot be read back: {e:?}")),
         }
+        // the seekable and the streaming validator accept the xorb under its own hash
+        match CasObject::validate_cas_object(&mut Cursor::new(&bytes), &hash) {
+            Ok(Some(_)) => {},
+            other => bad.push(format!("{n} chunks: seekable validator rejects a valid xorb: {:?}", other.map(|o| o.is_some()))),
+        }
+        let rt = tokio::runtime::Builder::new_current_thread().build().unwrap();
+        match rt.block_on(cas_object::validate_cas_object_from_async_read(&mut &bytes[..], &hash)) {
+            Ok(Some(_)) => {},
+            other => bad.push(format!("{n} chunks: streaming validator rejects a valid xorb: {:?}", other.map(|o| o.is_some()))),
+        }
     }
     assert!(bad.is_empty(), "C07 violated: {bad:?}");
 }
